@@ -84,7 +84,54 @@ def yieldto_cases(draw, ctx):
 
 
 @st.composite
+def waitjoin_cases(draw, ctx):
+    """A stream that sleeps in pop_wait is joined while its only work - ULTs blocked on an
+    eventual - is being resumed from the primary stream: the first resumed ULT is popped
+    and finishes at once, the scheduler looks for remaining work while the second one is
+    between "pushed" and "no longer counted as blocked"."""
+    ns = draw(st.integers(1, 2))
+    if ctx.get("native") or draw(st.integers(0, 4)) == 0:
+        lines = [draw(sched_line(ctx, extra=" tick=10000 drain=0"))]
+    else:
+        lines = ["cfg seed=%d strat=pct d=%d pctlen=%d tick=10000 drain=0" %
+                 (draw(st.integers(0, 2 ** 31 - 1)), draw(st.integers(1, 3)),
+                  draw(st.sampled_from([2000, 3500, 5000])))]
+    lines += ["pool 0 kind=fifo access=mpmc", "xs 0 sched=default pools=0"]
+    units, main, joins = [], [], []
+    flag = 1
+    for x in range(1, ns + 1):
+        lines.append("pool %d kind=%s access=%s" % (x, draw(st.sampled_from(["fifo_wait", "fifo_wait", "fifo"])),
+                                                   draw(st.sampled_from(["mpmc", "mpsc"]))))
+        lines.append("xs %d sched=%s pools=%d" % (x, draw(st.sampled_from(["basic_wait", "basic_wait", "basic"])), x))
+    lines.append("eventual 0 nbytes=0")
+    waits = []
+    for x in range(1, ns + 1):
+        for _ in range(draw(st.integers(2, 4))):
+            u = len(units)
+            tail = draw(st.sampled_from([[], [], ["work 1"], ["yield"]]))
+            units.append("unit %d type=ult named=0 pool=%d : %s" %
+                         (u, x, "; ".join(["fset %d" % flag, "evwait 0"] + tail)))
+            main.append("create %d" % u)
+            waits.append("fwait %d" % flag)
+            flag += 1
+    main += waits + ["yieldn %d" % draw(st.integers(1, 4))]
+    s_ = len(units)
+    units.append("unit %d type=%s named=0 pool=0 : %s" %
+                 (s_, draw(st.sampled_from(["task", "ult"])),
+                  "; ".join(draw(st.sampled_from([[], ["work 1"], ["work 3"]])) + ["evset 0 0"])))
+    main.append("create %d" % s_)
+    for x in draw(st.permutations(list(range(1, ns + 1)))):
+        main.append("%s %d" % (draw(st.sampled_from(["xsjoin", "xsjoin", "xsfree"])), x))
+    lines += units
+    lines.append("main : " + "; ".join(main))
+    lines.append("note waitjoin")
+    return "\n".join(lines) + "\n"
+
+
+@st.composite
 def cases(draw, ctx):
+    if ctx.get("variant") == "waitjoin":
+        return draw(waitjoin_cases(ctx))
     if ctx.get("variant") == "stacked":
         # stacked schedulers: the hosting stream is joined while the stacked scheduler (and
         # the units in its pools) may still be waiting in the host's pool
@@ -267,6 +314,8 @@ def classify(text, res, ctx):
 
 
 def nontrivial(text, res, ctx):
+    if "note waitjoin" in text:
+        return stat(res, "xsjoin_with_pending_units") >= 1
     if "note c06-stacked" in text:
         return stat(res, "stacked_scheds") >= 1 and "xs" in text.split("main :")[-1]
     if "note c06-resumerace" in text:
@@ -279,8 +328,9 @@ def nontrivial(text, res, ctx):
 PLAN = {
     "quick": [("coarse", 9, 250), ("san", 4, 80), ("native", 2, 150), ("coarse", 2, 200, "yieldto"),
               ("native", 1, 100, "yieldto"), ("coarse", 3, 300, "resumerace"),
-              ("coarse", 2, 250, "stacked"), ("san", 1, 150, "stacked")],
+              ("coarse", 2, 250, "stacked"), ("san", 1, 150, "stacked"), ("coarse", 6, 800, "waitjoin")],
     "thorough": [("coarse", 6, 5000), ("fine", 6, 3000), ("san", 2, 1500), ("nopool", 1, 1000),
                  ("native", 1, 2500), ("coarse", 2, 3000, "yieldto"), ("native", 1, 1000, "yieldto"),
-                 ("coarse", 3, 5000, "resumerace"), ("coarse", 2, 4000, "stacked"), ("san", 2, 2000, "stacked")],
+                 ("coarse", 3, 5000, "resumerace"), ("coarse", 2, 4000, "stacked"), ("san", 2, 2000, "stacked"),
+                 ("coarse", 4, 8000, "waitjoin"), ("fine", 2, 3000, "waitjoin")],
 }
